@@ -49,6 +49,9 @@ static void vm_fence(void) {}
 static void vm_abort(void) { printf("ASSERTION FAILED: abort() reached\n"); exit(7); }
 static void vm_spin(void) {}
 static void vm_park(void) {}
+static W vm_get_kt(void) { return vm_kt; }
+static void vm_atomic_begin(void) {}
+static void vm_atomic_end(void) {}
 static void vm_set_kt(W k) { vm_kt = k; }
 static W vm_is_parked(W t) { return 0; }
 static void vm_progress(void) {}
